@@ -95,6 +95,21 @@ def stop_decision(prev, cur, tol):
     return None
 
 
+def eps_kind(prev, cur, tol):
+    """True when the pair is decided differently by (prev-cur)/(prev+eps) and (prev-cur)/prev, clear of any threshold tie:
+    whichever of the two the implementation uses, it has to use the same one at every place the rule is evaluated."""
+    prev, cur = float(prev), float(cur)
+    if not (math.isfinite(prev) and math.isfinite(cur)) or tol <= 0 or prev <= 0 or cur > prev:
+        return False
+    if abs(cur - prev) <= 1e-12 * max(abs(prev), 1e-300) and cur != prev:
+        return False
+    with np.errstate(all="ignore"):
+        rels = [float((np.float64(prev) - cur) / (np.float64(prev) + np.float64(EPS))), float((np.float64(prev) - cur) / np.float64(prev))]
+    if any(math.isnan(r) or abs(r - tol) <= 1e-6 * tol for r in rels):
+        return False
+    return (rels[0] < tol) != (rels[1] < tol)
+
+
 ROW = re.compile(r"^\s*(\d+)\s+(-?(?:\d+\.\d+|inf|nan))(?:\s+(-?(?:\d+\.\d+|inf|nan)))?\s*$")
 
 
@@ -161,7 +176,7 @@ class C12(OptEngineBase):
     PROBES = [
         "early_stop", "stop_at_i1", "hit_max_iter_converged", "hit_max_iter_not_converged", "chi2_increase_seen", "nan_chi2",
         "chi2_exact_zero", "split_ge_3", "clock_backwards", "clock_frozen", "stdout_failed", "clone_after_abort", "clone_checked",
-        "table_parsed", "table_unparsed", "stop_rule_ambiguous", "stdout_none", "str_parsed", "singular_raised_as_error", "called_with_defaults", "interrupted_in_user_code", "nonunit_vertex_quaternion", "user_edit_between_calls", "graph_pickled_or_deepcopied_between_calls", "verbosity_flip_on_natural_failure", "solver_raised_naturally", "all_warnings_are_errors",
+        "table_parsed", "table_unparsed", "stop_rule_ambiguous", "one_rule_twin", "stdout_none", "str_parsed", "singular_raised_as_error", "called_with_defaults", "interrupted_in_user_code", "nonunit_vertex_quaternion", "user_edit_between_calls", "graph_pickled_or_deepcopied_between_calls", "verbosity_flip_on_natural_failure", "solver_raised_naturally", "all_warnings_are_errors",
     ]
 
     def generate(self, rng, tier, index):
@@ -617,6 +632,26 @@ class C12(OptEngineBase):
                 except Exception as e:
                     V("str-raised", "str(result) raised %s: %s" % (type(e).__name__, e))
                     break
+                # ---- one rule: the pair a run examines when it gives up at max_iter is the pair a run allowed one more
+                # iteration examines inside its loop; the two have to be judged alike (only worth a twin where the choice of
+                # denominator matters)
+                if C is not None and ambiguous and not stopped_early and ref_num == m and m >= 1 and eps_kind(chis[m - 1], chis[m], op["tol"]):
+                    res.probe("one_rule_twin")
+                    C2 = graphs.clone(C)
+                    kw2 = dict(kw)
+                    kw2["max_iter"] = m + 1
+                    try:
+                        r2 = report_of(self._benign_optimize(w, C2, 700 + i, **kw2))
+                    except Exception:  # noqa
+                        r2 = None
+                    if r2 is not None:
+                        res.n_checks += 1
+                        inner = bool(r2["converged"]) and r2["num_iterations"] == m
+                        if inner != bool(rep["converged"]):
+                            V("one-rule", "the run stopped by max_iter=%d reports converged=%r for the pair chi^2 %r -> %r, the same run allowed %d "
+                              "iterations %s at that very pair (the rule is applied differently at the two places)"
+                              % (m, rep["converged"], chis[m - 1], chis[m], m + 1, "stopped as converged" if inner else "went on"))
+                            break
                 # ---- fresh clone replays the same call
                 if C is not None:
                     res.probe("clone_checked")
